@@ -56,3 +56,41 @@ def config_at_call_time(ctx, rule, classes=None, module_level=True):
            not bad, fact=f"{n} methods examined in {sorted(classes) if classes else 'all classes'}", why='see the reports',
            key='config read at import', nontrivial=False)
     return n
+
+
+def precision_zero_is_a_value(ctx, rule, classes=None):
+    """The configured number of digits of a unit may be 0 (whole microlitres in the shipped yaml).  A lookup written as
+    `config.precisions.get(unit) or default` / `... if config.precisions.get(unit) else ...` takes that 0 for "missing"
+    and rounds to the default digits instead."""
+    model = ctx.model
+    bad = []
+    n = 0
+    for fi in model.funcs.values():
+        if fi.mod.rel != 'pyplate/pyplate.py':
+            continue
+        top = fi
+        while top.parent is not None:
+            top = top.parent
+        if classes is not None and (top.cls is None or top.cls.name not in classes):
+            continue
+        if fi.parent is not None:
+            continue
+        for x in ast.walk(fi.node):
+            tests = []
+            if isinstance(x, ast.BoolOp) and isinstance(x.op, ast.Or):
+                tests = x.values[:-1]
+            elif isinstance(x, ast.IfExp):
+                tests = [x.test]
+            for t in tests:
+                if isinstance(t, ast.Call) and isinstance(t.func, ast.Attribute) and t.func.attr == 'get' and \
+                        ast.unparse(t.func.value).endswith('precisions'):
+                    bad.append((fi, x.lineno, ast.unparse(x)[:70]))
+            if isinstance(x, (ast.Subscript, ast.Call)) and 'precisions' in ast.unparse(x)[:60]:
+                n += 1
+    anchor = model.func('Container.get_volume')
+    for fi, line, txt in bad:
+        ctx.ob(rule, fi, line, 'a configured precision of 0 digits is used as 0 digits', False, fact=txt,
+               why='the truth test takes 0 for "not configured": values in that unit are rounded to the default digits',
+               key=f"precision 0 treated as missing in {fi.qualname}")
+    ctx.ob(rule, anchor, anchor.node.lineno, 'precision lookups test membership, not truth', not bad,
+           fact=f"{n} precision lookups examined", why='see the reports', key='precision lookup idiom', nontrivial=False)
